@@ -1,0 +1,11 @@
+package ioext
+
+import "io"
+
+// OnlyReader hides every method of a reader but `Read`.
+// `io.Copy` hands a source that implements `io.WriterTo` over in chunks of the source's choosing; the size that is
+// computed for a content before it is written to the tape only is the size that is written afterwards if both passes
+// feed the compressor and the encryptor with the same chunks
+type OnlyReader struct {
+	io.Reader
+}
